@@ -491,4 +491,200 @@ theorem endConsistent_listInv {nw : Network} {s s' : Schedule}
     (s.vehiclesAll nw) (s.tours, s.depotUsage, s.costs) (tours, usage, costs) (fun _ h => h) hi (fun _ => rfl) hfold
   exact listInv_of_core this rfl
 
+theorem subNat_ok {a b c : Nat} {site : String} (h : Tour.subNat a b site = .ok c) : b ≤ a ∧ c = a - b := by
+  unfold Tour.subNat at h
+  split at h
+  · simp only [pure, Except.pure, Except.ok.injEq] at h; exact ⟨by assumption, h.symm⟩
+  · cases h
+
+/-- the body of the second fold of `improve_depots` -/
+def improveStep (nw : Network) (s : Schedule) (acc : Acc) (v : Veh) : R Acc := do
+  let (tours, u, costs) := acc
+  let t ← unwrapO (s.tourOf? v) "tour_of(vehicle_id).unwrap()"
+  let vt ← unwrapO (s.typeOf? v) "vehicle_type_of(vehicle_id).unwrap()"
+  let nt ← improveDepotsOfTour nw t vt u
+  let c ← Tour.subNat (costs + nt.costs) t.costs "costs underflow"
+  let sd ← Transition.startDepotU nw nt
+  let ed ← Transition.endDepotU nw nt
+  let u1 := usageModify u (nw.depotIdxOf sd) vt (fun p => (vehInsert p.1 v, p.2))
+  let u2 := usageModify u1 (nw.depotIdxOf ed) vt (fun p => (p.1, vehInsert p.2 v))
+  pure (assocSet tours v nt, u2, c)
+
+theorem improveStep_ok {nw : Network} {s : Schedule} {acc acc' : Acc} {v : Veh}
+    (h : improveStep nw s acc v = .ok acc') :
+    ∃ nt t vt, acc'.1 = assocSet acc.1 v nt ∧ s.tourOf? v = some t ∧ s.typeOf? v = some vt ∧
+      acc'.2.2 + t.costs = acc.2.2 + nt.costs := by
+  obtain ⟨tours, u, costs⟩ := acc
+  unfold improveStep at h
+  dsimp only at h
+  obtain ⟨t, ht, h⟩ := bind_ok h
+  obtain ⟨vt, hvt, h⟩ := bind_ok h
+  obtain ⟨nt, _, h⟩ := bind_ok h
+  obtain ⟨c, hc, h⟩ := bind_ok h
+  obtain ⟨sd, _, h⟩ := bind_ok h
+  obtain ⟨ed, _, h⟩ := bind_ok h
+  simp only [pure, Except.pure, Except.ok.injEq] at h
+  subst h
+  obtain ⟨hle, hceq⟩ := subNat_ok hc
+  exact ⟨nt, t, vt, rfl, unwrapO_ok ht, unwrapO_ok hvt, by simp only; omega⟩
+
+/-- the body of the fold of `reassign_end_depots_greedily` -/
+def greedyStep (nw : Network) (s : Schedule) (acc : Acc) (v : Veh) : R Acc := do
+  let (tours, u, costs) := acc
+  let t ← unwrapO (s.tourOf? v) "tour_of(vehicle_id).unwrap()"
+  let lnd ← unwrapO (t.lastNonDepot nw) "last_non_depot().unwrap()"
+  let ne ← match (nw.endDepotsSortedByDistanceFrom (nw.node lnd).endLoc).head? with
+    | some d => pure d
+    | none => .error (.err "Cannot find end depot for vehicle.")
+  let nt ← unwrapR (t.replaceEndDepot nw ne) "replace_end_depot(..).unwrap()"
+  let c ← Tour.subNat (costs + nt.costs) t.costs "costs underflow"
+  let tours' := assocSet tours v nt
+  let u' ← updateDepotUsage nw s u s.vehicles tours' v
+  pure (tours', u', c)
+
+theorem greedyStep_ok {nw : Network} {s : Schedule} {acc acc' : Acc} {v : Veh}
+    (h : greedyStep nw s acc v = .ok acc') :
+    ∃ nt t, acc'.1 = assocSet acc.1 v nt ∧ s.tourOf? v = some t ∧ acc'.2.2 + t.costs = acc.2.2 + nt.costs := by
+  obtain ⟨tours, u, costs⟩ := acc
+  unfold greedyStep at h
+  dsimp only at h
+  obtain ⟨t, ht, h⟩ := bind_ok h
+  obtain ⟨lnd, _, h⟩ := bind_ok h
+  split at h
+  · obtain ⟨ne, _, h⟩ := bind_ok h
+    obtain ⟨nt, _, h⟩ := bind_ok h
+    obtain ⟨c, hc, h⟩ := bind_ok h
+    obtain ⟨u', _, h⟩ := bind_ok h
+    simp only [pure, Except.pure, Except.ok.injEq] at h
+    subst h
+    obtain ⟨hle, hceq⟩ := subNat_ok hc
+    exact ⟨nt, t, rfl, unwrapO_ok ht, by simp only; omega⟩
+  · simp [bind, Except.bind] at h
+
+theorem endGreedy_listInv {nw : Network} {s s' : Schedule}
+    (hi : ListInv s) (h : reassignEndDepotsGreedily nw s = .ok s') : ListInv s' := by
+  have hunf : reassignEndDepotsGreedily nw s = (do
+      let (tours, usage, costs) ← (s.vehiclesAll nw).foldlM (greedyStep nw s) (s.tours, s.depotUsage, s.costs)
+      let (trans, viol) ← recomputeTransitions nw s.idsByType tours nw.typeIdxs s.transitions s.violation
+      pure { s with tours, transitions := trans, depotUsage := usage, violation := viol, costs }) := rfl
+  rw [hunf] at h
+  obtain ⟨⟨tours, usage, costs⟩, hfold, h⟩ := bind_ok h
+  dsimp only at h
+  obtain ⟨⟨trans, viol⟩, _, h⟩ := bind_ok h
+  simp only [pure, Except.pure, Except.ok.injEq] at h
+  rw [← h]
+  have := fold_setTours s (coreOf s) (greedyStep nw s) (s.vehiclesAll nw)
+    (fun acc v acc' hv hstep => by
+      obtain ⟨nt, _, hset, _, _⟩ := greedyStep_ok hstep
+      exact ⟨nt, hset, listed_hasTour hi hv⟩)
+    (s.vehiclesAll nw) (s.tours, s.depotUsage, s.costs) (tours, usage, costs) (fun _ h => h) hi (fun _ => rfl) hfold
+  exact listInv_of_core this rfl
+
+theorem improve_listInv {nw : Network} {s s' : Schedule} {vs : Option (List Veh)}
+    (hi : ListInv s) (h : improveDepots nw s vs = .ok s') : ListInv s' := by
+  unfold improveDepots at h
+  dsimp only at h
+  obtain ⟨usage0, _, h⟩ := bind_ok h
+  have hstep : ∀ (u0 : DepotUsage) (r : Acc),
+      (vs.getD (s.vehiclesAll nw)).foldlM (improveStep nw s) (s.tours, u0, s.costs) = .ok r →
+      ListInvC { coreOf s with tours := r.1 } := by
+    intro u0 r hfold
+    exact fold_setTours s (coreOf s) (improveStep nw s) (vs.getD (s.vehiclesAll nw))
+      (fun acc v acc' _ hst => by
+        obtain ⟨nt, t, vt, hset, _, hvt, _⟩ := improveStep_ok hst
+        exact ⟨nt, hset, typed_hasTour hi hvt⟩)
+      _ (s.tours, u0, s.costs) r (fun _ h => h) hi (fun _ => rfl) hfold
+  obtain ⟨⟨tours, usage, costs⟩, hfold, h⟩ := bind_ok h
+  have hc := hstep usage0 (tours, usage, costs) hfold
+  inv_do h
+  all_goals (try contradiction)
+  all_goals (try (cases h))
+  all_goals exact listInv_of_core hc rfl
+
+theorem recompute_listInv {nw : Network} {s s' : Schedule} {vts : Option (List Nat)}
+    (hi : ListInv s) (h : recomputeTransitionsFor nw s vts = .ok s') : ListInv s' := by
+  unfold recomputeTransitionsFor at h
+  inv_do h
+  all_goals (try contradiction)
+  all_goals (try (cases h))
+  all_goals exact hi
+
+/-- **C10 (listing clause), one step** -/
+theorem C10_listing_step (nw : Network) (s : Schedule) (op : Spec.SOp) (r : OpResult)
+    (hi : ListInv s) (h : applyOp nw s op = .ok r) : ListInv r.sched := by
+  unfold applyOp at h
+  cases op with
+  | init =>
+    simp only [pure, Except.pure, Except.ok.injEq] at h
+    rw [← h]; exact empty_listInv nw
+  | spawn vt path =>
+    obtain ⟨⟨s', v⟩, hs, h⟩ := bind_ok h
+    simp only [pure, Except.pure, Except.ok.injEq] at h
+    rw [← h]; exact spawn_listInv hi hs
+  | dummySpawn d vt =>
+    obtain ⟨⟨s', v⟩, hs, h⟩ := bind_ok h
+    simp only [pure, Except.pure, Except.ok.injEq] at h
+    rw [← h]; exact dummySpawn_listInv hi hs
+  | delete v =>
+    obtain ⟨s', hs, h⟩ := bind_ok h
+    simp only [pure, Except.pure, Except.ok.injEq] at h
+    rw [← h]; exact delete_listInv hi hs
+  | addPath v path =>
+    dsimp only at h
+    split at h
+    · obtain ⟨⟨s', rm⟩, hs, h⟩ := bind_ok h
+      simp only [pure, Except.pure, Except.ok.injEq] at h
+      rw [← h]; exact addPath_listInv hi hs
+    · cases h
+  | rmSeg v a b =>
+    obtain ⟨s', hs, h⟩ := bind_ok h
+    simp only [pure, Except.pure, Except.ok.injEq] at h
+    rw [← h]; exact rmSeg_listInv hi hs
+  | fit p r a b =>
+    obtain ⟨s', hs, h⟩ := bind_ok h
+    simp only [pure, Except.pure, Except.ok.injEq] at h
+    rw [← h]; exact fit_listInv hi hs
+  | override p r a b =>
+    obtain ⟨⟨s', d⟩, hs, h⟩ := bind_ok h
+    simp only [pure, Except.pure, Except.ok.injEq] at h
+    rw [← h]; exact override_listInv hi hs
+  | improve vs =>
+    obtain ⟨s', hs, h⟩ := bind_ok h
+    simp only [pure, Except.pure, Except.ok.injEq] at h
+    rw [← h]; exact improve_listInv hi hs
+  | endGreedy =>
+    obtain ⟨s', hs, h⟩ := bind_ok h
+    simp only [pure, Except.pure, Except.ok.injEq] at h
+    rw [← h]; exact endGreedy_listInv hi hs
+  | recompute vts =>
+    obtain ⟨s', hs, h⟩ := bind_ok h
+    simp only [pure, Except.pure, Except.ok.injEq] at h
+    rw [← h]; exact recompute_listInv hi hs
+  | endConsistent =>
+    obtain ⟨s', hs, h⟩ := bind_ok h
+    simp only [pure, Except.pure, Except.ok.injEq] at h
+    rw [← h]; exact endConsistent_listInv hi hs
+  | setTrans vt v ci =>
+    obtain ⟨tr, _, h⟩ := bind_ok h
+    obtain ⟨moved, _, h⟩ := bind_ok h
+    simp only [pure, Except.pure, Except.ok.injEq] at h
+    rw [← h]; exact hi
+
+/-- **C10 (listing clause), every history**: in every schedule the model reaches from the empty
+    schedule by public modifications, vehicles and tours have the same duplicate-free keys (real ids
+    below the counter) and the per-type id lists are duplicate-free, correctly typed and complete -/
+theorem C10_listing_reachable (nw : Network) : ∀ (ops : List Spec.SOp) (s s' : Schedule),
+    ListInv s → runOps nw s ops = some s' → ListInv s'
+  | [], s, s', hi, h => by simp only [runOps, Option.some.injEq] at h; rw [← h]; exact hi
+  | op :: rest, s, s', hi, h => by
+    unfold runOps at h
+    split at h
+    · rename_i r hr
+      exact C10_listing_reachable nw rest r.sched s' (C10_listing_step nw s op r hi hr) h
+    · cases h
+
+theorem C10_listing_from_empty (nw : Network) (ops : List Spec.SOp) (s' : Schedule)
+    (h : runOps nw (Schedule.empty nw) ops = some s') : ListInv s' :=
+  C10_listing_reachable nw ops _ s' (empty_listInv nw) h
+
 end RSSched.C10L
